@@ -131,9 +131,11 @@ fn sampled(rng: &mut Rng, c08: bool) -> Scenario {
                 EvKind::Prod { c1: lerp(p.grid[s2], p.grid[s2 + 1], rng.uni(0.05, 0.95)), c2: c }
             }
         };
-        let scale = match rng.int(0, 3) {
-            0 => rng.sign(),
-            1 => rng.sign() * rng.logu(1e-3, 1e3),
+        let scale = match rng.int(0, 9) {
+            0 | 1 => rng.sign(),
+            2 | 3 | 4 => rng.sign() * rng.logu(1e-3, 1e3),
+            // extreme but valid magnitudes (products of two values under/overflow)
+            5 => rng.sign() * (10.0f64).powf(rng.uni(-220.0, 220.0)),
             _ => rng.sign() * rng.logu(1e-15, 1e15),
         };
         let dir = *rng.pick(&[Dir::All, Dir::All, Dir::Pos, Dir::Neg]);
